@@ -42,6 +42,10 @@ META = {'design_ref': 'DESIGN.md section 7 / C15',
                'not connected fails exactly the rejected kinds with OfflineQueuePolicyFailed and enqueues the others, and over ALL runs an '
                'OfflineQueuePolicyFailed completion is only ever delivered to an operation of a rejected kind (see Properties/C15.v); the regenerated '
                'implementation table (POLICY command, 4 policies x kinds) is compared on every run by the engine area; "rejected operations are never sent '
-               'later / preserved ones are sent after reconnection" is the monitor mon_c15 on the implementation trace.',
+               'later / preserved ones are sent after reconnection" is the monitor mon_c15 on the implementation trace. Monitors on the implementation trace: '
+               'mon_c15 (an offline-policy failure only hits a kind the policy rejects; after a close every retained operation is of a preserved kind or an '
+               'in-flight QoS>=1 publish awaiting resubmission) and mon_c15_submit (a submission made while the engine is not Connected — Disconnected, '
+               'PendingConnack, PendingDisconnect, Halted — of a rejected kind is failed with the offline-policy error within the submitting call, and no '
+               'other submission is).',
  'technique': 'machine-checked proof in Coq over the engine model + lock-step correspondence of the extracted model with the implementation + extracted '
               'monitors on the implementation trace'}
